@@ -2,6 +2,8 @@ package pebbles
 
 import (
 	"encoding/json"
+
+	"github.com/buildbuildio/pebbles/planner"
 )
 
 // C07-K3: syntactically valid but unusual operations through the real handler, planner and executor:
@@ -9,8 +11,9 @@ import (
 // any goroutine (that would end the process), and serve the next request normally.
 
 type vCorner struct {
-	q    string
-	vars map[string]interface{}
+	q      string
+	vars   map[string]interface{}
+	opName string
 }
 
 func vCornerOps() []vCorner {
@@ -30,6 +33,10 @@ func vCornerOps() []vCorner {
 		{q: `query($f: Filter) { pets(filter: $f) { name } }`, vars: map[string]interface{}{"f": map[string]interface{}{"tags": nil}}},
 		{q: `mutation { adopt(id: "c1") { toy name } }`},
 		{q: `{ today pets { __typename } }`},
+		// operations the gateway cannot select
+		{q: `query A { today } query B { today }`},
+		{q: `query A { today }`, opName: "Nope"},
+		{q: `{ today }`, opName: "A"},
 		// values of a custom scalar may be lists and objects, with variables inside
 		{q: `query($v: Int) { search(meta: [$v]) }`, vars: map[string]interface{}{"v": 1}},
 		{q: `query($v: Int) { search(meta: {k: $v}) }`, vars: map[string]interface{}{"v": 1}},
@@ -42,7 +49,14 @@ func VerifHandlerCorners() {
 	vK = 1
 	vMinLen = 1
 	w := vAbstractWorld()
-	f := vNewFed(w, nil, vS16A, vS16B)
+	// with the plain planner, or with the caching planner (then every operation is sent twice: the
+	// second time it is served from the cache, and the request after it is planned afresh)
+	cached := verifChoice("planner", 2) == 1
+	var opts []GatewayOption
+	if cached {
+		opts = append(opts, WithPlanner(planner.NewCachedPlanner(1000000000)))
+	}
+	f := vNewFed(w, opts, vS16A, vS16B)
 	ops := vCornerOps()
 	c := ops[verifChoice("op", len(ops))]
 	verifLog("op: " + c.q)
@@ -51,6 +65,9 @@ func VerifHandlerCorners() {
 	one := map[string]interface{}{"query": c.q}
 	if c.vars != nil {
 		one["variables"] = c.vars
+	}
+	if c.opName != "" {
+		one["operationName"] = c.opName
 	}
 	other := map[string]interface{}{"query": `{ today }`}
 	var payload interface{} = one
@@ -61,6 +78,10 @@ func VerifHandlerCorners() {
 		payload = []interface{}{other, one}
 	}
 	pb, _ := json.Marshal(payload)
+	if cached {
+		vPostRaw(f.gw, "application/json", pb)
+		verifReach("corner operation served from the plan cache")
+	}
 	rec0 := vPostRaw(f.gw, "application/json", pb)
 	verifAssert(rec0.code == 200, "a decodable request is answered with status 200")
 	var elems []interface{}
